@@ -393,6 +393,14 @@ def corpus():
     add("ip6-ext", eth(0x86dd, ip6(0, cat(ext(43, b"\x01\x04\0\0\0\0"), ext(60, b"\0\0\0\0\0\0" + b"\x01\x06" + b"\0" * 6), ext(17, b"\x01\x04\0\0\0\0"),
                                         udp(1, 2, b"ext")))))
     add("ip6-frag", eth(0x86dd, ip6(44, cat(frag6(17), udp(1, 2, b"fragment header first, forty bytes of data..")))))
+    # chains of extension headers where the two bounds of the fragment header differ (against the payload length / against the buffer, D48):
+    # a fragment header behind another header, a chain that ends with the buffer, a payload length that overshoots
+    add("ip6-hbh-frag", eth(0x86dd, ip6(0, cat(ext(44, b"\x01\x04\0\0\0\0"), frag6(17), udp(1, 2, b"after two headers")))))
+    add("ip6-hbh-frag-frag", eth(0x86dd, ip6(0, cat(ext(44, b"\x01\x04\0\0\0\0"), frag6(44)), plen=16)))
+    add("ip6-hbh-frag-end", eth(0x86dd, ip6(0, cat(ext(44, b"\x01\x04\0\0\0\0"), frag6(59)))))
+    add("ip6-frag-frag", eth(0x86dd, ip6(44, cat(frag6(44), frag6(17), udp(1, 2, b"xy")))))
+    add("ip6-plen-over-hbh", eth(0x86dd, ip6(0, cat(ext(17, b"\x01\x04\0\0\0\0"), udp(1, 2, b"abc")), plen=200)))
+    add("ip6-plen-over-frag", eth(0x86dd, ip6(44, cat(frag6(17), udp(1, 2, b"abc")), plen=200)))
     add("ip6-echo", eth(0x86dd, ip6(58, icmp6(128, 0, echo(1, 2, b"ping6")))))
     add("ip6-echoreply", eth(0x86dd, ip6(58, icmp6(129, 0, echo(1, 2, b"")))))
     add("ip6-ns", eth(0x86dd, ip6(58, icmp6(135, 0, cat(b"\0\0\0\0" + IP6_A, ndopt(1, MAC_A))))))
